@@ -105,6 +105,17 @@ class Ctx:
             resid = None
         tr = self.engine.tr
         cs = self._constraints(pc, assume)
+        d2 = self._eliminate_roots(d, cs, tr)
+        if d2 is not d:
+            # roots of perfect powers replaced by +-base (factorisation certified by the normaliser, sign decided by the solver under the path constraints)
+            try:
+                num2 = poly.numerator(d2)
+                if num2.is_zero() or poly.is_zero_poly(num2):
+                    return self._rec(name, "unsat", time.time() - t0, "eq", how="normalisation after solver-certified root elimination", key=key)
+                d = d2
+                resid = poly.poly_to_node(num2) if len(num2.t) < 3000 else None
+            except (poly.TooBig, ZeroDivisionError, RecursionError):
+                pass
         goal_nodes = [d] if resid is None else [resid, d]
         verdict, model, dt_total = "unknown", None, 0.0
         for gn in goal_nodes:
@@ -117,7 +128,54 @@ class Ctx:
         if verdict == "unknown" and slices:
             verdict, model, dt2 = self._slices(cs, tr, goal_nodes[-1], slices)
             dt_total += dt2
+            if verdict == "unsat-sliced":
+                # weaker, stated claim: the general query stayed unknown; the identity is decided for every value of the remaining variables
+                # at each listed parameter combination only
+                self.note(f"{name}: general query unknown; decided with parameters pinned to {slices} (all other variables symbolic)")
+                return self._rec(name, "unsat", time.time() - t0, "eq", how="solver/normalisation at pinned parameter slices (general query unknown)", key=key)
         return self._finish(name, verdict, model, time.time() - t0, "eq", replay, key, d)
+
+    def _eliminate_roots(self, d, cs, tr):
+        """m-th roots whose radicand is A * B**m: replace by root_m(A) * |B| when the solver decides the sign of B under the constraints."""
+        for _round in range(3):
+            mapping = {}
+            for n in dag.walk([d]):
+                if n.op != "root":
+                    continue
+                a, m = n.args
+                A, B = dag.ONE, None
+                if a.op in ("mul", "add"):
+                    B = smt.Translator._perfect_power(a, m)
+                if B is None and a.op == "mul" and any(abs(e) >= m for _, e in a.args[0]):
+                    B = dag.ONE
+                    for b, e in a.args[0]:
+                        k = e // m if e >= 0 else -((-e) // m)
+                        if k:
+                            B = dag.mul(B, dag.powi(b, k))
+                        if e - k * m:
+                            A = dag.mul(A, dag.powi(b, e - k * m))
+                if B is None or B is dag.ONE:
+                    continue
+                try:
+                    pb, qb = tr.rz(B)
+                    sb = pb * qb
+                    r1, _, _, _ = smt.check(cs + tr.side() + [sb < 0], 10000)
+                    sign = 1 if r1 == "unsat" else None
+                    if sign is None and m % 2 == 0:
+                        r2, _, _, _ = smt.check(cs + tr.side() + [sb > 0], 10000)
+                        sign = -1 if r2 == "unsat" else None
+                except Exception:
+                    sign = None
+                if sign is None:
+                    continue
+                rep = B if sign > 0 else dag.neg(B)
+                if A is not dag.ONE:
+                    rep = dag.mul(dag.root(A, m), rep)
+                mapping[n] = rep
+            if not mapping:
+                break
+            d = dag.subst(d, mapping)
+        return d
 
     # -- predicates
     def holds(self, name, formula, pc=(), assume=(), replay=None, key=None):
@@ -171,15 +229,27 @@ class Ctx:
         import itertools, z3
         names = list(slices)
         t0 = time.time()
+        all_unsat = True
         for combo in itertools.product(*[slices[n] for n in names]):
             pins = [z3.Real(n) == smt._rv(Fraction(v)) for n, v in zip(names, combo)]
-            p, q = tr.rz(gn)
-            r, model, dt, _ = smt.check(cs + tr.side() + pins + [p != 0], 5000)
+            r = None
+            try:
+                gs = dag.subst(gn, {dag.var(n): dag.const(Fraction(v)) for n, v in zip(names, combo)})
+                if poly.numerator(gs).is_zero():
+                    r = "unsat"
+            except (poly.TooBig, ZeroDivisionError, RecursionError, NotImplementedError):
+                gs = gn
+            if r is None:
+                p, q = tr.rz(gs)
+                r, model, dt, _ = smt.check(cs + tr.side() + pins + [p != 0], 20000)
             if r == "sat":
                 return "sat", model, time.time() - t0
+            if r != "unsat":
+                all_unsat = False
             if time.time() - t0 > self.timeout_ms / 1000:
+                all_unsat = False
                 break
-        return "unknown", None, time.time() - t0
+        return ("unsat-sliced" if all_unsat else "unknown"), None, time.time() - t0
 
     def _finish(self, name, verdict, model, dt, kind, replay, key, d, detail=None):
         rec = self._rec(name, verdict, dt, kind, key=key)
